@@ -8,7 +8,10 @@ for f in os.listdir(src):
     if f in ("patch.diff", "demo.py", "demo.sh", "notes.md"):
         shutil.copy(os.path.join(src, f), d)
 conf = ""
-for log in ("/tmp/seed-confirm-1.log", "/tmp/seed-confirm-2.log", "/tmp/seed-confirm-3.log", "/tmp/seed-confirm-4.log", "/tmp/seed-confirm-5.log"):
+logs = ("/tmp/seed-confirm-1.log", "/tmp/seed-confirm-2.log", "/tmp/seed-confirm-3.log", "/tmp/seed-confirm-4.log", "/tmp/seed-confirm-5.log")
+if os.environ.get("SEED_CONF_LOG"):
+    logs = (os.environ["SEED_CONF_LOG"],)
+for log in logs:
     if os.path.exists(log):
         for l in open(log):
             if l.startswith("RESULT %s " % prop):
@@ -16,5 +19,8 @@ for log in ("/tmp/seed-confirm-1.log", "/tmp/seed-confirm-2.log", "/tmp/seed-con
 json.dump({"property": prop, "origin": "independent sub-agent given only the property record and a scratch worktree",
            "needs_to_manifest": needs,
            "confirmed": "tools/seed_confirm.sh in a scratch worktree of /repo HEAD: applies, builds, existing tests pass, demo passes without / fails with the change. " + conf,
-           "detected_by": det}, open(os.path.join(d, "meta.json"), "w"), indent=1)
+           "detected_by": det,
+           # the /repo commit the patch applies to (later repairs may have moved the code it touches)
+           **({"base_commit": os.environ["SEED_BASE"]} if os.environ.get("SEED_BASE") else {})},
+          open(os.path.join(d, "meta.json"), "w"), indent=1)
 print("saved", d)
